@@ -660,6 +660,28 @@ fn c09_remove_value_exact() {
     std::mem::forget(s);
 }
 
+//@ id=C09 tier=quick timeout=2400 bounds="prefix through the real API: reserve_capacity(2,3), element 1 = [(1,a),(2,b)], a,b symbolic i64; storage = 448-byte array back end; then insert_value(1,(3,x)), x symbolic, and remove_value(1, 1) (the FIRST of three keys, two pairs behind it)" desc="removing a key that has two or more pairs behind it deletes exactly that pair and keeps the relative order of all the others (no swap-with-last)" cbmc="--max-field-sensitivity-array-size 460" kernel="DbKeyValues::remove_value,DbKeyValues::insert_value,DbKeyValues::values,DbKeyValues::key_count,DbVec::remove,DbVec::push"
+#[kani::proof]
+#[kani::stub(std::fmt::format, crate::verif_support::fmt_stub)]
+#[kani::stub(crate::DbError::new, crate::verif_support::dberror_new_stub)]
+#[kani::unwind(5)]
+fn c09_remove_first_of_three_keeps_order() {
+    let mut s = c09_fresh();
+    let val: [i64; 2] = kani::any();
+    let (mut kvs, mut m) = c09_prefix(&mut s, &val);
+    let x: i64 = kani::any();
+    c09_step(&mut kvs, &mut s, &mut m, 3, 1, 3, x);
+    assert!(m.n[1] == 3, "model: three pairs");
+    c09_step(&mut kvs, &mut s, &mut m, 1, 1, 1, 0);
+    assert!(m.n[1] == 2 && m.k[1][0] == 2 && m.k[1][1] == 3, "model: keys 2, 3 left in that order");
+    c09_observe_pairs(&kvs, &s, &m, 1);
+    c09_observe_pairs(&kvs, &s, &m, 2);
+    kani::cover!(x != val[1], "the two remaining values differ");
+    kani::cover!(true, "end of harness reachable");
+    std::mem::forget(kvs);
+    std::mem::forget(s);
+}
+
 //@ id=C09 tier=quick timeout=1500 bounds="prefix through the real API: reserve_capacity(2,3), element 1 = [(1,a),(2,b)], a,b symbolic i64; storage = 448-byte array back end; then insert_or_replace(2,(1,c)), remove(1), insert_or_replace(1,(2,w)) (element index reused)" desc="removing an element removes all its pairs and nothing of the other element; the index can be reused and starts empty" cbmc="--max-field-sensitivity-array-size 460" kernel="DbKeyValues::remove,DbKeyValues::insert_or_replace,DbKeyValues::insert_value,DbKeyValues::values,DbKeyValues::key_count,DbVec::remove_from_storage,DbVec::new"
 #[kani::proof]
 #[kani::stub(std::fmt::format, crate::verif_support::fmt_stub)]
